@@ -1,16 +1,24 @@
 /-
 C19 — messages in one SML text are parsed independently.
 
-Proved on the parser model: variable names and ellipsis numbering are scoped to one message —
-whatever names and counter the previous message left behind, `parseMessage` starts from none
-(`scope_reset`); the message loop handles one message after the other, appending in order, and
-stops at the first message that fails (`loop_unfold`); the messages parsed before a point are
-never revisited (`loop_acc_prefix`).
-`concat_independence_partial`: the full statement parse (t₁ ++ sep ++ t₂) = parse t₁ ++ parse t₂
-additionally needs the lexer append lemma (the token stream of a concatenation is the
-concatenation of the token streams, shifted), part of the lexer refinement of DESIGN §6.4-L2 that
-is not completed; it is decided on the real code by the concatenation suite (deep equality with
-each text parsed alone) and the model is compared on every concatenated text.
+Proved on the parser model:
+ * `tokens_independent`: for the token stream `A` of ANY accepted first text and any token stream
+   `B`, parsing `A ++ B` gives the messages of `A` followed by exactly what parsing `B` alone gives
+   (same messages, same errors, the warnings of both). It rests on the locality of the parser
+   (`parseMessage_loc`, `parseLoop_prefix` in Proofs/ParserLocal, ParserConcat: what is done up to
+   a point does not depend on tokens not yet reached), on `parseLoop_clean_at_eof` (no error ⇒ the
+   loop ran to the end-of-input token) and on `continuation_independent` below;
+ * variable names and ellipsis numbering are scoped to one message: whatever names and counter the
+   previous message left behind, `parseMessage` starts from none (`scope_reset`, `loop_scope`);
+   the loop handles one message after the other, appending in order, and stops at the first
+   message that fails (`loop_unfold`, `loop_acc`, `loop_acc_prefix`);
+ * `printed_texts_independent`: the text-level statement `parse (t₁ ++ sep ++ t₂) = parse t₁ ++
+   parse t₂` for texts in printed form (lexer half from Proofs/LexPrintedItems).
+`concat_independence_partial`: for texts in arbitrary spelling the one missing step is lexical —
+that the token stream of a concatenation is the first text's stream followed by the second's
+(locality of every scanner; building blocks in Proofs/LexLocal). It is decided on the real code by
+the concatenation suite (deep equality with each text parsed alone) and the model is compared on
+every concatenated text.
 -/
 import SecsModel.Model.Parser
 import SecsModel.Proofs.ParserNat
